@@ -23,7 +23,7 @@ use arrow_buffer::buffer::{BooleanBuffer, NullBuffer};
 use arrow_buffer::{
     ArrowNativeType, Buffer, IntervalDayTime, IntervalMonthDayNano, MutableBuffer, bit_util, i256,
 };
-use arrow_schema::{ArrowError, DataType, UnionMode};
+use arrow_schema::{ArrowError, DataType, UnionFields, UnionMode};
 use std::mem;
 use std::ops::Range;
 use std::sync::Arc;
@@ -1511,14 +1511,7 @@ impl ArrayData {
                 let child = &self.child_data[0];
                 self.validate_offsets_full::<i64>(child.len)
             }
-            DataType::Union(_, _) => {
-                // Validate Union Array as part of implementing new Union semantics
-                // See comments in `ArrayData::validate()`
-                // https://github.com/apache/arrow-rs/issues/85
-                //
-                // TODO file follow on ticket for full union validation
-                Ok(())
-            }
+            DataType::Union(fields, mode) => self.validate_union_values(fields, mode),
             DataType::Dictionary(key_type, _value_type) => {
                 let dictionary_length: i64 = self.child_data[0].len.try_into().unwrap();
                 let max_value = dictionary_length - 1;
@@ -1648,6 +1641,51 @@ impl ArrayData {
             // itself applies bounds checking to each range
             Ok(())
         })
+    }
+
+    /// Validates that every type id of a union names one of its fields and, for dense
+    /// unions, that every offset lies within the child array selected by the type id
+    fn validate_union_values(
+        &self,
+        fields: &UnionFields,
+        mode: &UnionMode,
+    ) -> Result<(), ArrowError> {
+        let type_ids = self.typed_buffer::<i8>(0, self.len)?;
+        let offsets = match mode {
+            UnionMode::Dense => Some(self.typed_buffer::<i32>(1, self.len)?),
+            UnionMode::Sparse => None,
+        };
+
+        // type id -> index of the child array
+        let mut child_index: [Option<usize>; 128] = [None; 128];
+        for (idx, (type_id, _)) in fields.iter().enumerate() {
+            if let Ok(type_id) = usize::try_from(type_id) {
+                child_index[type_id] = Some(idx);
+            }
+        }
+
+        for (i, type_id) in type_ids.iter().enumerate() {
+            let child = usize::try_from(*type_id)
+                .ok()
+                .and_then(|id| child_index[id])
+                .ok_or_else(|| {
+                    ArrowError::InvalidArgumentError(format!(
+                        "Type id at position {i} invalid: {type_id} is not a type id of {}",
+                        self.data_type
+                    ))
+                })?;
+
+            if let Some(offsets) = offsets {
+                let offset = offsets[i];
+                let child_len = self.child_data[child].len;
+                if offset < 0 || offset as usize >= child_len {
+                    return Err(ArrowError::InvalidArgumentError(format!(
+                        "Offset at position {i} out of bounds: {offset} (child array #{child} has length {child_len})"
+                    )));
+                }
+            }
+        }
+        Ok(())
     }
 
     /// Validates that each value in self.buffers (typed as T)
